@@ -275,13 +275,13 @@ type Operand struct {
 	Funcs []Func `json:"funcs,omitempty"`
 }
 type Query struct {
-	K  string   `json:"k"`
-	P  *Operand `json:"p,omitempty"`
+	K  string          `json:"k"`
+	P  *Operand        `json:"p,omitempty"`
 	L  json.RawMessage `json:"l,omitempty"`
 	R  json.RawMessage `json:"r,omitempty"`
-	Q  *Query   `json:"q,omitempty"`
-	Op string   `json:"op,omitempty"`
-	Re string   `json:"re,omitempty"`
+	Q  *Query          `json:"q,omitempty"`
+	Op string          `json:"op,omitempty"`
+	Re string          `json:"re,omitempty"`
 }
 
 func (q *Query) lq() *Query   { var x Query; mustUn(q.L, &x); return &x }
